@@ -495,7 +495,7 @@ impl Exec {
                 let d = self.w.verif_dump();
                 let mut fabricated = vec![(d.slots.len(), 0), (d.slots.len() + 7, 3)];
                 for (i, s) in d.slots.iter().enumerate() {
-                    fabricated.push((i, s.generation + 1));
+                    fabricated.push((i, s.generation.wrapping_add(1)));
                 }
                 if dead.is_empty() && d.slots.is_empty() {
                     return Step::Disabled;
